@@ -105,7 +105,10 @@ def gen_net(rng):
             if len(incs) > 1 and rng.random() < 0.6:
                 inc["left_of"] = rng.choice([x["id"] for x in incs if x is not inc])
         inters.append({"id": xid, "incs": incs, "cross": subset(rng, ids, 0, 2)})
-    return {"lanelets": lanelets, "signs": sign_ids, "lights": light_ids, "inters": inters}
+    # alias: lanelets that list the same signs / lights are constructed with ONE Python set object (Lanelet keeps the
+    # caller's set): e.g. approach_lights = {30, 31} handed to both lanelets of an approach
+    return {"lanelets": lanelets, "signs": sign_ids, "lights": light_ids, "inters": inters,
+            "alias": rng.random() < 0.25}
 
 
 def cell_box(cell):
@@ -198,6 +201,12 @@ def make_shape(shape):
 # ------------------------------------------------------------------------------------ building the objects
 def build(spec):
     net = LaneletNetwork()
+    shared = {}
+
+    def idset(kind, ids):
+        if not spec.get("alias"):
+            return set(ids)
+        return shared.setdefault((kind, tuple(sorted(ids))), set(ids))
     for s in spec["signs"]:
         net.add_traffic_sign(TrafficSign(s, [TrafficSignElement(TrafficSignIDGermany.MAX_SPEED, [str(s % 7 * 10)])], set(),
                                          np.array([float(s), 1.0])), set())
@@ -223,7 +232,7 @@ def build(spec):
             adjacent_right_same_direction=la["adjR"][1] if la["adjR"] else None,
             line_marking_left_vertices=LineMarking.DASHED, stop_line=stop,
             lanelet_type={LaneletType[t] for t in la["types"]},
-            traffic_signs=set(la["signs"]), traffic_lights=set(la["lights"])), rtree=False)
+            traffic_signs=idset("s", la["signs"]), traffic_lights=idset("l", la["lights"])), rtree=False)
     for x in spec["inters"]:
         net.add_intersection(Intersection(x["id"], [
             IntersectionIncomingElement(i["id"], set(i["lanelets"]), set(i["right"]), set(i["straight"]), set(i["left"]),
